@@ -209,6 +209,7 @@ def TABLES():
     out.append('/-- traverse: faults in source order (parts, underscore, namespace, method kind, TypeError) -/')
     out.append('def traverseRaises : List String := [' + ', '.join(lean_str(x) for x in _fault_names(tv)) + ']')
     out.extend(way_in_defs())
+    out.extend(add_group_defs(rpc))
     return out
 
 
@@ -384,6 +385,46 @@ _WAY_IN = [
     ('chanHeader', 'supervisor/http.py', 'deferring_http_channel.found_terminator', '(buf : Sv.Rpc.PyStr)', {'self.in_buffer': ('buf', 'pystr')},
      lambda f: _first_stmt_value(f, lambda a: any(ast.unparse(n) == 'self.in_buffer' for n in ast.walk(a.value)))),
 ]
+
+
+def add_group_defs(rpc):
+    """addProcessGroup, by role: the except clauses around the call of `...add_process_group(...)` (exception classes caught ->
+    fault raised in the handler), the fault raised when its result is false, the fault raised when no configured group has
+    the name; and Python's own exception hierarchy (what an `except X` clause catches)."""
+    import builtins
+    out = []
+    try:
+        f = find_func(rpc, 'SupervisorNamespaceRPCInterface.addProcessGroup')
+        call = _only(_calls(f, lambda c: isinstance(c.func, ast.Attribute) and c.func.attr == 'add_process_group'), '...add_process_group(...)')
+        tries = [t for t in ast.walk(f) if isinstance(t, ast.Try) and any(n is call for b in t.body for n in ast.walk(b))]
+        rows = []
+        for t in sorted(tries, key=lambda t: -t.lineno):          # innermost first
+            for h in t.handlers:
+                if h.type is None:
+                    types = ['BaseException']
+                elif isinstance(h.type, ast.Tuple):
+                    types = [ast.unparse(e).split('.')[-1] for e in h.type.elts]
+                else:
+                    types = [ast.unparse(h.type).split('.')[-1]]
+                types = ['OSError' if x in ('error', 'IOError', 'EnvironmentError') else x for x in types]
+                reraises = any(isinstance(n, ast.Raise) and n.exc is None for n in ast.walk(h))
+                rows.append('([%s], [%s])' % (', '.join(lean_str(x) for x in types),
+                                              ', '.join(lean_str(x) for x in (_fault_names(h) if not reraises else ['?reraise']))))
+        out.append('/-- addProcessGroup: the except clauses around `supervisord.add_process_group(config)`, innermost first: (classes caught, faults raised in the handler) -/')
+        out.append('def addGroupCatches : List (List String × List String) := [%s]' % ', '.join(rows))
+        falsy = [n for n in ast.walk(f) if isinstance(n, ast.If) and isinstance(n.test, ast.UnaryOp) and isinstance(n.test.op, ast.Not)]
+        out.append('/-- addProcessGroup: the fault raised when add_process_group answers false (the group is already active) -/')
+        out.append('def addGroupAlready : List String := [%s]' % ', '.join(lean_str(x) for n in falsy for x in _fault_names(n)))
+        last = [st for st in f.body if isinstance(st, ast.Raise)]
+        out.append('/-- addProcessGroup: the fault raised when no configured group has the name -/')
+        out.append('def addGroupUnknown : List String := [%s]' % ', '.join(lean_str(x) for st in last for x in _fault_names(st)))
+    except Exception as ex:
+        out.append('-- addGroupCatches  UNTRANSLATED (%s: %s)' % (type(ex).__name__, str(ex).replace('\n', ' ')))
+    excs = sorted((k, v) for k, v in vars(builtins).items() if isinstance(v, type) and issubclass(v, BaseException) and v.__name__ == k)
+    out.append('/-- Python: every built-in exception class with its method resolution order (`except X` catches class C iff X is in the MRO of C) -/')
+    out.append('def excMro : List (String × List String) := [\n  ' + ',\n  '.join(
+        '(%s, [%s])' % (lean_str(k), ', '.join(lean_str(c.__name__) for c in v.__mro__ if c is not object)) for k, v in excs) + ']')
+    return out
 
 
 def way_in_defs():
